@@ -8,6 +8,7 @@ import (
 	"errors"
 	"fmt"
 	"io"
+	"log"
 	"net"
 	"net/http"
 	"strings"
@@ -452,7 +453,7 @@ func (s *Server) ListenHTTP(addr string) error {
 		return err
 	}
 	s.Addr["http"] = l.Addr().String()
-	hs := &http.Server{Handler: s.httpHandler("http"), ConnState: s.connState}
+	hs := &http.Server{Handler: s.httpHandler("http"), ConnState: s.connState, ErrorLog: log.New(io.Discard, "", 0)}
 	s.addCloser(func() { hs.Close() })
 	go hs.Serve(l)
 	return nil
@@ -466,7 +467,7 @@ func (s *Server) ListenHTTPS(addr string, cfg *tls.Config) error {
 	s.Addr["https"] = l.Addr().String()
 	cfg = cfg.Clone()
 	cfg.NextProtos = []string{"h2", "http/1.1"}
-	hs := &http.Server{Handler: s.httpHandler("https"), TLSConfig: cfg, ConnState: s.connState}
+	hs := &http.Server{Handler: s.httpHandler("https"), TLSConfig: cfg, ConnState: s.connState, ErrorLog: log.New(io.Discard, "", 0)}
 	s.addCloser(func() { hs.Close() })
 	go hs.ServeTLS(l, "", "")
 	return nil
